@@ -77,6 +77,7 @@ def main():
     ctx.proof = proof
 
     # 2+3. correspondence and direct oracle pass -----------------------------------------
+    crlib.start_coverage()
     model = ModelClient(ctx)
     use_model = model.available() and not args.no_lean
     if not use_model and not args.no_lean:
@@ -144,6 +145,9 @@ def main():
             print(f"first disagreement: suite={d['suite']} diff={json.dumps(d['impl'].get('diff'))[:300]}")
         print(f"VIOLATION property={prop} replay={path} no-failing-input-found")
         rc = 1
+    cov = crlib.coverage_report()
+    if cov:
+        ctx.extra["impl_line_coverage"] = cov
     write_evidence(ctx, proof, len(ctx.violations) if ctx.violations else (1 if broken else 0))
     nk = sum(ctx.known.values())
     print(f"{prop} {args.tier}: evaluations={ctx.evaluations} distinct_nontrivial={len(ctx.nontrivial)} "
